@@ -128,6 +128,20 @@ CLAIMED = {
         "endpoints 0..9, pairs of layouts for two same-kind types; quick tier executes a seeded sample of layouts.",
    technique="TLA+ definitional oracle + transcription checked by TLC, replay of enumerated requests into the real Context on real storage",
    design="4/C10"),
+ "C02": dict(
+   text="spec/Lineage.tla models registry, config, the per-context plugin cache exactly as the code keys it (context hash = config + "
+        "registered versions), lineage keys and shared storage; TLC explores all histories up to a bound over {set_config, register "
+        "(class variants), new_context, get, key_for} and checks NoStaleRead (a get returns what a brand-new context would compute), "
+        "KeyIsLineage and the static key laws (tracked option / version / class move exactly the type and its descendants, "
+        "untracked options move nothing); the protocol as found violates NoStaleRead. Histories (all get-change-get shapes + seeded "
+        "random ones) run on real Contexts sharing a DataDirectory with provenance-encoding plugins; TLC validates every recorded "
+        "history against the spec (LineageTrace.tla: returned provenance, one-to-one correspondence real key <-> lineage value, "
+        "invariants after every event). Key stability across hash seeds and insertion orders is tested in child processes on every "
+        "lineage reached and on container-valued options.",
+   note="Trusted: TLC; harness plugins whose output encodes (class name+version, effective tracked option, input provenance). Fuzzy "
+        "matching and child/shared options are not yet modelled. Hash-seed independence is decided by the conformance step, not TLC.",
+   technique="TLA+ model checking over histories + TLC trace validation of histories executed on real Contexts",
+   design="4/C02"),
 }
 NOT_BUILT = "decision procedure (TLA+ module + binding) not built yet in this session; see DESIGN.md section 4 for the plan"
 
